@@ -262,6 +262,21 @@ func (c *FnCtx) runBody() {
 			c.heap = nh
 			// merge ghost state
 			ng := map[string]Val{}
+			// a ghost missing on some incoming edge (lastret before any call) is an arbitrary value there
+			for i := range ins {
+				for k, gv := range ins[i].st.ghost {
+					for j := range ins {
+						if _, ok := ins[j].st.ghost[k]; !ok {
+							cp := map[string]Val{}
+							for a, b := range ins[j].st.ghost {
+								cp[a] = b
+							}
+							cp[k] = Val{T: c.fresh("ghost_unset", c.sortOf(gv.Ty)), Ty: gv.Ty}
+							ins[j].st.ghost = cp
+						}
+					}
+				}
+			}
 			for k, v0 := range ins[0].st.ghost {
 				m := v0.T
 				for i := 1; i < len(ins); i++ {
